@@ -12,6 +12,8 @@ else:
 import numpy as np
 import time
 
+from setigen.voltage import raw_utils
+
 
 def get_pfb_waterfall(pfb_voltages_x, pfb_voltages_y=None, fftlength=256, int_factor=1):
     """
@@ -82,18 +84,15 @@ def get_waterfall_from_raw(raw_filename, block_size, num_chans, int_factor=1, ff
     XX_psd : array
         Finely channelized voltages
     """
+    header = raw_utils.read_header(raw_filename)
     with open(raw_filename, "rb") as f:
-        i = 1
-        chunk = f.read(80)
-        while f"{'END':<80}".encode() not in chunk:
-            chunk = f.read(80)
-            i += 1
-        # Skip zero padding
-        chunk = f.read((512 - (80 * i % 512)))
+        # Skip header cards, and zero padding if DIRECTIO is set
+        f.read(raw_utils.get_header_size(header))
         # Read data
         chunk = f.read(block_size)
         
     rawbuffer = np.frombuffer(chunk, dtype=xp.int8).reshape((num_chans, -1))
     rawbuffer_x = rawbuffer[:, 0::4] + rawbuffer[:, 1::4] * 1j
     rawbuffer_y = rawbuffer[:, 2::4] + rawbuffer[:, 3::4] * 1j    
-    return get_pfb_waterfall(rawbuffer_x.T, rawbuffer_y.T, int_factor, fftlength)
+    return get_pfb_waterfall(rawbuffer_x.T, rawbuffer_y.T, 
+                             fftlength=fftlength, int_factor=int_factor)
